@@ -416,12 +416,13 @@ var types = []byte{0x01, 0x10, 0x11, 0x13, 0x13, 0x14, 0x14, 0x20, 0x21, 0x30, 0
 func random(c *mon.Ctx, r *gen.Rand) {
 	t := newTracker(c)
 	n := 3 + r.Intn(28)
-	pts := uint64(1000)
+	// signal times start at an ordinary value, at 0, or shortly before the 33-bit wrap (later ones then pass through 0)
+	pts := r.PickU64([]uint64{1000, 1000, 1000, 0, 1<<33 - 300, 1<<33 - 1, 1<<32 - 200})
 	for i := 0; i < n && !t.dead; i++ {
 		switch op := r.Intn(20); {
 		case op < 13:
 			if r.Chance(2) || t.perPTS[pts] >= 6 {
-				pts += 100
+				pts = (pts + 100) & (1<<33 - 1)
 			}
 			typ := types[r.Intn(len(types))]
 			num, exp := byte(1), byte(1)
@@ -443,7 +444,7 @@ func random(c *mon.Ctx, r *gen.Rand) {
 				continue
 			}
 			// re-submission is only meaningful inside the tracker's duplicate window (10 signal times) or after close
-			if int(pts-t.inf[d].pts)/100 >= 8 && t.live[d] {
+			if int((pts-t.inf[d].pts)&(1<<33-1))/100 >= 8 && t.live[d] {
 				continue
 			}
 			t.process(d)
@@ -466,7 +467,7 @@ func random(c *mon.Ctx, r *gen.Rand) {
 		}
 		if r.Chance(15) {
 			// two descriptors on one signal; the signal loses (or regains) its time between the two calls
-			pts += 100
+			pts = (pts + 100) & (1<<33 - 1)
 			d1 := scte35.CreateSegmentationDescriptor()
 			d2 := scte35.CreateSegmentationDescriptor()
 			d1.SetTypeID(0x30)
@@ -500,13 +501,14 @@ func random(c *mon.Ctx, r *gen.Rand) {
 func interleaved(c *mon.Ctx, r *gen.Rand) {
 	ts := []*tracker{newTracker(c), newTracker(c)}
 	n := 4 + r.Intn(30)
-	pts := uint64(1000)
+	// signal times start at an ordinary value, at 0, or shortly before the 33-bit wrap (later ones then pass through 0)
+	pts := r.PickU64([]uint64{1000, 1000, 1000, 0, 1<<33 - 300, 1<<33 - 1, 1<<32 - 200})
 	for i := 0; i < n && !ts[0].dead && !ts[1].dead; i++ {
 		t := ts[r.Intn(2)]
 		switch op := r.Intn(10); {
 		case op < 6:
 			if r.Chance(2) || ts[0].perPTS[pts] >= 5 || ts[1].perPTS[pts] >= 5 {
-				pts += 100
+				pts = (pts + 100) & (1<<33 - 1)
 			}
 			typ := types[r.Intn(len(types))]
 			d := mk(typ, uint32(1+r.Intn(2)), pts, !r.Chance(12), 1, 1)
@@ -538,11 +540,11 @@ const alphabet = 15
 
 func exhaustive(c *mon.Ctx, code, depth int) {
 	t := newTracker(c)
-	pts := uint64(1000)
+	pts := []uint64{1000, 1<<33 - 200, 1<<33 - 100}[code%3] // the second start makes the second signal time exactly 0
 	for k := 0; k < depth && !t.dead; k++ {
 		sym := code % alphabet
 		code /= alphabet
-		pts += 100
+		pts = (pts + 100) & (1<<33 - 1)
 		pt := func(typ byte) {
 			d := mk(typ, 1, pts, true, 1, 1)
 			t.register(d, typ, 1, pts, true)
